@@ -501,7 +501,7 @@ impl<'a> Analyzer<'a> {
     }
     let Op::Req(_, oc) = self.stmt_op(c, stmt) else { return; };
     // C09: the stamp of the require is taken from the output returned to the requirer.
-    if matches!(oc, OC::Equals | OC::IsZero | OC::Always | OC::Near) {
+    if matches!(oc, OC::Equals | OC::IsZero | OC::Always | OC::Near | OC::UnitPred) {
       match win.oc_stamps.last() {
         Some((soc, sout, sst)) if *soc == oc && *sout == out && *sst == oc.stamp_of(out) => {}
         other => {
